@@ -488,6 +488,12 @@ func (s *Server) handlePostTx(w http.ResponseWriter, r *http.Request) {
 		return
 	}
 
+	// Only the primary applies forwarded transactions.
+	if !s.store.IsPrimary() {
+		Error(w, r, litefs.ErrLeaseExpired, http.StatusServiceUnavailable)
+		return
+	}
+
 	// Ensure database should already exist from halt lock.
 	db := s.store.DB(name)
 	if db == nil {
